@@ -30,7 +30,7 @@ CLAIMED = {
     "C12": dict(
         category="fault_enumeration",
         text=("Per generated template or multi-file template set (85% laid out over several lines with non-ASCII text before "
-              "expressions): every probe site reached in the fault-free run x each of 21 exception classes (builtin, "
+              "expressions): every probe site reached in the fault-free run x each of 30 exception classes (builtin, "
               "custom with extra constructor arguments, custom __str__, RecursionError, four outside Exception) is made "
               "to fail in its own render - enumerated, not sampled - plus two-fault plans with an earlier recovered "
               "failure. Oracle on the raised exception: class preserved (+RenderError iff Exception subclass; "
@@ -44,7 +44,11 @@ CLAIMED = {
               "One known finding is recorded rather than repaired (entity-drift, known_findings.json): positions after "
               "character entities in TAL attribute values. 25% of the laid-out templates carry form feed / NEL / U+2028-style "
               "separators, 20% CRLF line endings. Exceptions are held and read again after later renders, and once more with "
-              "open() failing while the message is built. Errors crossing a nested render() call made by user code are not generated."),
+              "open() failing while the message is built. Errors crossing a nested render() call made by user code (a helper that renders "
+              "the case's template, silently or reading str(e) before re-raising), asynchronous KeyboardInterrupt / SystemExit at the "
+              "distinct lines of a render (must come out unchanged, never return), exception objects raised again by later renders, "
+              "render arguments that cannot be formatted and a 30-class zoo (incl. __slots__, keyword-only constructors, a refusing "
+              "__setattr__) are part of every batch."),
         technique="deterministic fault enumeration at the expression-evaluation seam (every reached site x exception zoo) with a generator-known site table as oracle",
     ),
     "C13": dict(
@@ -58,7 +62,9 @@ CLAIMED = {
         design_ref="DESIGN.md 3.3",
         note=("Trusted: sim/model.py for the generated subset (macros, slots and i18n blocks between nested handlers are "
               "generated; a define-slot inside a translation block is not). error.type/value are compared always, "
-              "error.lineno/offset when the failure happened in the same render function as the handler."),
+              "error.lineno/offset against the failing expression's position (or a use-macro expression it was reached through "
+              "when the failure crossed a macro / slot boundary). Asynchronous KeyboardInterrupt / SystemExit at the distinct lines "
+              "of a render must come out unchanged (on-error must not handle them)."),
         technique="deterministic fault injection (sets of failing evaluation points) with a reference interpreter as output oracle",
     ),
     "C14": dict(
